@@ -6,6 +6,10 @@ package filtering
 //
 //vx:overlay internal/filtering/zz_vx_c05.go
 //vx:entry vxC05Filter reach=guarded-access
+//vx:entry vxC05FilterLists reach=guarded-access
+//vx:stub (*encoding/json.Decoder).Decode vxC05FJSONDecode
+//vx:stub github.com/AdguardTeam/urlfilter/filterlist.NewFileRuleList vxC05FNewFileRuleList
+//vx:stub github.com/AdguardTeam/AdGuardHome/internal/aghhttp.WriteJSONResponse vxC05FWriteJSON
 //vx:stub (*github.com/AdguardTeam/urlfilter.DNSEngine).MatchRequest vxC05FMatchRequest
 //vx:stub github.com/AdguardTeam/urlfilter.NewDNSEngine vxC05NewDNSEngine
 //vx:stub github.com/AdguardTeam/urlfilter/filterlist.NewRuleStorage vxC05NewRuleStorage
@@ -14,6 +18,8 @@ package filtering
 //vx:stub runtime/debug.FreeOSMemory vxC05Free
 
 import (
+	"encoding/json"
+	"net/http"
 	"sync"
 	"time"
 
@@ -105,4 +111,91 @@ func vxC05Filter() {
 		vx.Reach("guarded-access")
 	}
 	vx.Assert(vx.Held(&d.engineLock) == 0 && vx.Held(d.confMu) == 0, "locks are released on return")
+}
+
+// ---- filter lists, custom rules and the per-feature switches ----
+
+// vxC05FJSONDecode stands for the JSON decoder of the admin API: the decoded
+// request is a fixed valid one.
+func vxC05FJSONDecode(dec *json.Decoder, v any) error {
+	switch r := v.(type) {
+	case *filteringRulesReq:
+		r.Rules = []string{"||blocked.example^"}
+	case *filteringConfig:
+		r.Enabled = true
+		r.Interval = 24
+	}
+	return nil
+}
+
+// vxC05FNewFileRuleList: the list file on disk is not part of the lock discipline.
+func vxC05FNewFileRuleList(id int, path string, ignoreCosmetic bool) (*filterlist.FileRuleList, error) {
+	return &filterlist.FileRuleList{}, nil
+}
+
+func vxC05FWriteJSON(w http.ResponseWriter, r *http.Request, code int, resp any) {}
+
+type vxC05FWriter struct{ h http.Header }
+
+func (w *vxC05FWriter) Header() http.Header         { return w.h }
+func (w *vxC05FWriter) Write(b []byte) (int, error) { return len(b), nil }
+func (w *vxC05FWriter) WriteHeader(code int)        {}
+
+// vxC05FilterLists: the filter lists, the custom rules and the filtering
+// switch are owned by conf.filtersMu; the per-feature switches by confMu.  One
+// admin operation, refresh-worker step or configuration save at a time; the
+// configuration-modified callback saves the configuration like the production
+// one (home.onConfigModified -> config.write -> WriteDiskConfig).
+func vxC05FilterLists() {
+	c := &Config{ProtectionEnabled: true, FilteringEnabled: true, BlockedServices: &BlockedServices{Schedule: schedule.EmptyWeekly()},
+		Filters:          []FilterYAML{{Enabled: true, URL: "https://lists.example/a.txt", Name: "a", Filter: Filter{ID: 1}}},
+		WhitelistFilters: []FilterYAML{{Enabled: true, URL: "https://lists.example/w.txt", Name: "w", Filter: Filter{ID: 2}, white: true}},
+		UserRules:        []string{"||x.example^"},
+		DataDir:          "/data",
+	}
+	d := VxC05NewFilter(c)
+	d.filtersInitializerChan = make(chan filtersInitializerParams, 1)
+	vxC05Filt = d
+	d.conf.ConfigModified = func() {
+		saved := Config{}
+		d.WriteDiskConfig(&saved)
+	}
+	vx.Guard(&d.conf.Filters, d.conf.filtersMu, "DNSFilter.conf.Filters")
+	vx.Guard(&d.conf.WhitelistFilters, d.conf.filtersMu, "DNSFilter.conf.WhitelistFilters")
+	vx.Guard(&d.conf.UserRules, d.conf.filtersMu, "DNSFilter.conf.UserRules")
+	vx.Guard(&d.conf.SafeBrowsingEnabled, d.confMu, "DNSFilter.conf.SafeBrowsingEnabled")
+	vx.Guard(&d.conf.ParentalEnabled, d.confMu, "DNSFilter.conf.ParentalEnabled")
+	vx.Guard(&d.conf.SafeSearchConf, d.confMu, "DNSFilter.conf.SafeSearchConf")
+
+	w := &vxC05FWriter{h: http.Header{}}
+	r := &http.Request{Method: http.MethodPost, Header: http.Header{"Content-Type": {"application/json"}}, Body: http.NoBody}
+	switch vx.Choice("op", 11) {
+	case 0: // configuration save
+		saved := Config{}
+		d.WriteDiskConfig(&saved)
+	case 1: // admin: add a list
+		_ = d.filterAdd(FilterYAML{Enabled: true, URL: "https://lists.example/b.txt", Name: "b", Filter: Filter{ID: 3}})
+	case 2: // admin: rename a list
+		_, _ = d.filterSetProperties("https://lists.example/a.txt", FilterYAML{Enabled: true, URL: "https://lists.example/a.txt", Name: "renamed"}, false)
+	case 3: // refresh worker / start-up: rebuild the engines from the lists
+		d.EnableFilters(false)
+	case 4: // admin: set custom rules
+		d.handleFilteringSetRules(w, r)
+	case 5: // admin: filtering switch and interval
+		d.handleFilteringConfig(w, r)
+	case 6: // admin: status
+		d.handleFilteringStatus(w, r)
+	case 7: // refresh worker: which lists are due
+		d.listsToUpdate(&d.conf.Filters, true)
+	case 8: // request path: settings snapshot
+		d.Settings()
+	case 9: // admin: safe browsing switch
+		d.handleSafeBrowsingEnable(w, r)
+	default: // admin: parental switch
+		d.handleParentalDisable(w, r)
+	}
+	if vx.GuardHits() > 0 {
+		vx.Reach("guarded-access")
+	}
+	vx.Assert(vx.Held(&d.engineLock) == 0 && vx.Held(d.confMu) == 0 && vx.Held(d.conf.filtersMu) == 0, "locks are released on return")
 }
